@@ -70,7 +70,12 @@ M = [
  ('c16_socket_write_no_advance', 'C16', 'src/Socket.cpp', "		data = (char*)data + n;\n		s += n;\n		size -= n;\n	} while (s < size0);\n	return s;\n}", "		s += n;\n		size -= n;\n	} while (s < size0);\n	return s;\n}"),
  ('c16_buffer_array_native_len', 'C16', 'include/asl/StreamBuffer.h', "			write(&x[0], x.length() * (int)sizeof(T));", "			write(&x[0], x.length());"),
  ('c16_reader_read2_order', 'C16', 'include/asl/StreamBuffer.h', "		                                 : ((unsigned short)_ptr[1] << 8) | ((unsigned short)_ptr[0]));", "		                                 : ((unsigned short)_ptr[0] << 8) | ((unsigned short)_ptr[1]));"),
- ('c16_socket_endian_switch_sticky', 'C16', 'include/asl/Socket.h', "	void setEndian(Endian e) { _()->_endian = e; }", "	void setEndian(Endian e) { if (_()->_endian == ENDIAN_NATIVE || e != ENDIAN_NATIVE) _()->_endian = e; }"),
+ ('c16_socket_endian_switch_sticky', 'C16', 'include/asl/Socket.h', "	void setEndian(Endian e) { _()->_endian = e; }", "	void setEndian(Endian e) { if (_()->_endian == ENDIAN_NATIVE || e != ENDIAN_NATIVE) _()->_endian = e; }"), ('c05_bom_probe_consumes', 'C05', 'src/Xdl.cpp', "	if(!(tfile.read(bom, 3) == 3 && bom[0] == 0xef && bom[1] == 0xbb && bom[2] == 0xbf))\n		tfile.seek(0);", "	if(tfile.read(bom, 3) == 3 && !(bom[0] == 0xef && bom[1] == 0xbb && bom[2] == 0xbf))\n		tfile.seek(0);"),
+ ('c05_read_loop_off_by_one', 'C05', 'src/Xdl.cpp', "		if (n < buffer.length() - 1)\n			break;", "		if (n <= buffer.length() - 2)\n			break;\n		if (n == 64)\n			break;"),
+ ('c05_ctrl_escape_dropped', 'C05', 'src/Xdl.cpp', "			if ((byte)c < 0x20) // the other control characters must be escaped too", "			if ((byte)c < 0x1f) // the other control characters must be escaped too"),
+ ('c06_unicode_count_reset_on_parse', 'C06', 'src/Xdl.cpp', "	if(_state == ERR)\n		return;\n	while(char c=*s++)", "	if(_state == ERR)\n		return;\n	_unicodeCount = 0;\n	while(char c=*s++)"),
+ ('c06_incomment_not_kept', 'C06', 'src/Xdl.cpp', "	if(_state == ERR)\n		return;\n	while(char c=*s++)", "	if(_state == ERR)\n		return;\n	_inComment = false;\n	while(char c=*s++)"),
+ ('c06_slash_in_key_comment', 'C06', 'src/Xdl.cpp', "			if(c=='/' && _state != STRING && _state != ESCAPE && _state != QPROPERTY)", "			if(c=='/' && _state != STRING && _state != ESCAPE)"),
 ]
 
 
